@@ -9,6 +9,7 @@ recorded decision prefix.
 from __future__ import annotations
 
 import fractions
+import os
 import z3
 
 z3.set_param("model.completion", True)
@@ -29,6 +30,9 @@ class PathLimit(BaseException):
 
 
 _FEAS_TIMEOUT_MS = 3000
+
+
+MAX_DECISIONS = 20000
 
 
 class Ctx:
@@ -95,6 +99,9 @@ class Ctx:
         if z3.is_false(c):
             return False
         i = len(self.decisions)
+        self.ndecide = getattr(self, "ndecide", 0) + 1
+        if self.ndecide > MAX_DECISIONS:
+            raise Unsupported(f"more than {MAX_DECISIONS} branch decisions on one path (non-termination of the code under contract suspected)")
         if i < len(self.prefix):
             v = self.prefix[i]
         else:
@@ -203,14 +210,33 @@ class Path:
         return z3.And(*self.pc) if self.pc else z3.BoolVal(True)
 
 
+class PathTimeout(BaseException):
+    """One path of the code under contract ran longer than the per-path budget."""
+
+
+PATH_BUDGET_S = float(os.environ.get("VERIF_PATH_BUDGET", "45"))
+
+
+def _on_alarm(signum, frame):
+    raise PathTimeout()
+
+
 def explore(run, max_paths=4000):
-    """Run ``run(ctx)`` once per feasible path.  Returns list[Path]."""
+    """Run ``run(ctx)`` once per feasible path.  Returns list[Path].
+    Each path has a wall-clock budget (the code under contract is real code and may not terminate on a changed tree -- e.g. a loop whose
+    increment was lost): a path that exceeds it is recorded as unsupported (-> UNDECIDED), never as held or violated."""
+    import signal
+    import threading
+    use_alarm = threading.current_thread() is threading.main_thread() and PATH_BUDGET_S > 0
     pending = [[]]
     paths = []
     while pending:
         prefix = pending.pop()
         ctx = Ctx(prefix)
         with _Active(ctx):
+            if use_alarm:
+                prev = signal.signal(signal.SIGALRM, _on_alarm)
+                signal.setitimer(signal.ITIMER_REAL, PATH_BUDGET_S)
             try:
                 out = run(ctx)
                 kind = "ok"
@@ -219,10 +245,17 @@ def explore(run, max_paths=4000):
                 continue
             except Unsupported as e:
                 kind, out = "unsupported", e
+            except PathTimeout:
+                kind, out = "unsupported", Unsupported(f"one path ran longer than {PATH_BUDGET_S:g} s (non-termination of the code under contract suspected)")
+                ctx.pending = []
             except (KeyboardInterrupt, PathLimit):
                 raise
             except BaseException as e:  # the code under test raised
                 kind, out = "raise", e
+            finally:
+                if use_alarm:
+                    signal.setitimer(signal.ITIMER_REAL, 0)
+                    signal.signal(signal.SIGALRM, prev)
         pending.extend(ctx.pending)
         paths.append(Path(ctx, kind, out))
         if len(paths) > max_paths:
@@ -354,6 +387,56 @@ class FormatTrace:
         return out
 
 
+class FloatUF:
+    """Opt-in IEEE view of float arithmetic: inside `with FloatUF():` the four float operators are UNINTERPRETED functions fadd / fsub /
+    fmul / fdiv over the reals instead of the real operators.  Two results are then provably equal only if they are the same operator
+    applied to the same operands -- x * (1 / s) is not x / s, (a + b) + c is not a + (b + c) -- which is what "computed as written"
+    means for IEEE doubles.  Kept: commutativity of + and * (operands are put in a canonical order), x + 0 = x, x - 0 = x, x * 1 = x,
+    x / 1 = x (exact in IEEE up to the sign of zero).  Comparisons, negation and int <-> float conversion stay exact."""
+    active = False
+
+    def __enter__(self):
+        self.prev = FloatUF.active
+        FloatUF.active = True
+        return self
+
+    def __exit__(self, *a):
+        FloatUF.active = self.prev
+        return False
+
+
+_FUF = {}
+
+
+def fop(name, a, b):
+    """Result term of the float operator `name` (add, sub, mul, div) on two Real terms, under the current float model."""
+    if not FloatUF.active:
+        return {"add": lambda: a + b, "sub": lambda: a - b, "mul": lambda: a * b, "div": lambda: a / b}[name]()
+    a, b = z3.simplify(a), z3.simplify(b)
+
+    def isnum(t, v):
+        return z3.is_rational_value(t) and t.numerator_as_long() == v * t.denominator_as_long()
+    if name == "add":
+        if isnum(a, 0):
+            return b
+        if isnum(b, 0):
+            return a
+    if name == "sub" and isnum(b, 0):
+        return a
+    if name == "mul":
+        if isnum(a, 1):
+            return b
+        if isnum(b, 1):
+            return a
+    if name == "div" and isnum(b, 1):
+        return a
+    if name not in _FUF:
+        _FUF[name] = z3.Function("f" + name, z3.RealSort(), z3.RealSort(), z3.RealSort())
+    if name in ("add", "mul") and str(a) > str(b):
+        a, b = b, a
+    return _FUF[name](a, b)
+
+
 class _Num:
     __slots__ = ("t",)
     _real = False
@@ -380,30 +463,32 @@ class _Num:
         raise Unsupported("symbolic number formatted")
 
     # arithmetic ----------------------------------------------------------
-    def _bin(self, o, f, swap=False):
+    def _bin(self, o, f, swap=False, name=None):
         if not _okother(o):
             return NotImplemented
         a, b = (o, self) if swap else (self, o)
         ta, tb, real = _lift(a, b)
+        if real and FloatUF.active and name is not None:
+            return SymReal(fop(name, ta, tb))
         return _num(f(ta, tb), real)
 
     def __add__(self, o):
-        return self._bin(o, lambda a, b: a + b)
+        return self._bin(o, lambda a, b: a + b, name="add")
 
     def __radd__(self, o):
-        return self._bin(o, lambda a, b: a + b, True)
+        return self._bin(o, lambda a, b: a + b, True, name="add")
 
     def __sub__(self, o):
-        return self._bin(o, lambda a, b: a - b)
+        return self._bin(o, lambda a, b: a - b, name="sub")
 
     def __rsub__(self, o):
-        return self._bin(o, lambda a, b: a - b, True)
+        return self._bin(o, lambda a, b: a - b, True, name="sub")
 
     def __mul__(self, o):
-        return self._bin(o, lambda a, b: a * b)
+        return self._bin(o, lambda a, b: a * b, name="mul")
 
     def __rmul__(self, o):
-        return self._bin(o, lambda a, b: a * b, True)
+        return self._bin(o, lambda a, b: a * b, True, name="mul")
 
     def _truediv(self, o, swap):
         if not _okother(o):
@@ -414,6 +499,8 @@ class _Num:
             ta, tb = z3.ToReal(ta), z3.ToReal(tb)
         if cur().decide(tb == 0):
             raise ZeroDivisionError("division by zero")
+        if FloatUF.active:
+            return SymReal(fop("div", ta, tb))
         return SymReal(z3.simplify(ta / tb))
 
     def __truediv__(self, o):
